@@ -76,15 +76,13 @@ def body(c):
     # ---- documents over the family (same structure for P1..P3) and over the law profile
     ts_path = c.path("ts_family.json")
     json.dump(mirror["profiles"]["P1"], open(ts_path, "w"))
-    n = 4
+    n = 3 if c.quick else 4
     small = gen_docs(c, ts_path, 3, ["skip:true"], "family3")
-    flats = gen_docs(c, ts_path, n, ["skip:true"], "family")
+    flats = small if c.quick else gen_docs(c, ts_path, n, ["skip:true"], "family")
     total_docs = len(flats)
-    cap = 1000 if c.quick else 10 ** 9       # thorough: every document with <= 4 nodes
-    exhaustive = len(flats) <= cap
+    cap = 10 ** 9
+    exhaustive = True
     big = [f for f in flats if f not in set(small)]
-    if len(big) > cap:
-        big = sorted(rng.sample(big, cap))
     small_set = set(small)
     ws = worlds()
     profiles = ["P1", "P2", "P3"]
@@ -163,7 +161,7 @@ def body(c):
                      "profiles (one hand-made, two seeded) and 5 data worlds (every runtime type behind node/u/nodes/us/peer, lists of mixed types, "
                      "all-null)%s; distinct by (document text, profile, world) / policy tuple; non-trivial: every exec case, batch tuples of >= 2 policies"
                      % (stats["batch"], len(lflats), n, total_docs, "" if exhaustive else ", all with <= 3 nodes plus a seeded sample of %d of the rest" % cap,
-                        " (quick: 3 / 1 seeded (profile, world) pairs per small / large document; 3-field law queries sampled)" if c.quick
+                        " (quick: 3 seeded (profile, world) pairs per document; 3-field law queries sampled)" if c.quick
                         else " (documents with > 3 nodes: 2 seeded (profile, world) pairs each)"))
     for o in [x for x in obs if x["kind"] == "exec" and verdicts[x["id"]][0] != "ok"][:2] + [x for x in obs if x["kind"] == "exec"][:1]:
         c.sample({"profile": o["profile"], "world": o["wname"], "text": o["text"], "policy": o["obs"]["policy"], "verdict": verdicts[o["id"]][0]})
